@@ -119,8 +119,40 @@ def conv_program(p):
     body = [conv_stmt(s) for s in p.loop_body]
     guard = conv_cond(p.loop_guard)
     prog = L.Prog(init, guard, body, types)
-    prog.abstracted = {str(k): v for k, v in getattr(p, "abstracted_const_store", {}).items()}
+    prog.abstracted = {str(k): conv_cond(v) for k, v in getattr(p, "abstracted_const_store", {}).items()}
     return prog
+
+
+def abstraction_values(irp, max_states=2000):
+    """For a program whose conditions were abstracted as coins `_aK = Bernoulli(_probK)` (stored condition per `_probK`):
+    the probability of each stored condition at the program point of its coin, computed by executing the statements before
+    the coin in the first iteration on every initial state and splitting on the condition.  -> {prob name: Poly}
+    Raises NotApplicable if the condition cannot be decided by the model or its probability is not a constant."""
+    from .model import Model
+    from .poly import ZERO, Poly
+
+    vals = {}
+    m = Model(irp, max_states=max_states)
+    init = m.initial()
+    for pname, cond in irp.abstracted.items():
+        idx = None
+        for i, st in enumerate(irp.body):
+            if isinstance(st, L.Assign) and len(st.rhss) == 1 and isinstance(st.rhss[0], L.RDraw) \
+                    and st.rhss[0].dist == "Bernoulli" and st.rhss[0].params[0] == Poly.var(pname):
+                idx = i
+        if idx is None:
+            raise NotApplicable("coin of %s not found in the loop body" % pname)
+        total = ZERO
+        for st0, pr0 in init.values():
+            for s2, p2, _ in m.exec_stmts(irp.body[:idx], st0, pr0, 0, ()):
+                for truth, p3, _ in m.cond_split(cond, s2):
+                    if truth:
+                        total = total + p2 * p3
+        total = m.expect_atoms(total)
+        if not total.is_const():
+            raise NotApplicable("probability of an abstracted condition is not constant: %s" % total)
+        vals[pname] = total
+    return vals
 
 
 def typedefs_of(p):
